@@ -113,12 +113,27 @@ Definition any_handle_ok (s : mst) (i : nat) : bool :=
   | None => true
   | Some h => match get_node s (href h) with Some _ => true | None => false end
   end.
-Definition wf_op_sim (s : mst) (o : op) : bool :=
+Definition wf_op_simx (s : mst) (o : op) : bool :=
   wf_op s o &&
   match o with
   | HRead i _ | HReadAt i _ _ | HWrite i _ | HWriteAt i _ _ | HWriteString i _ | HSeek i _ _ | HTruncate i _ => file_handle_ok s i
   | HReaddir i _ | HReaddirnames i _ => dir_handle_ok s i
   | HClose i | HStat i | HSync i | HName i => any_handle_ok s i
+  | _ => true
+  end.
+Fixpoint wf_seq_simx (s : mst) (ops : list op) : bool :=
+  match ops with
+  | [] => true
+  | o :: r => wf_op_simx s o && wf_seq_simx (fst (m_step s o)) r
+  end.
+
+(* the precondition of the comparison with the POSIX specification: wf_op_simx without the side
+   condition any_handle_ok, which holds in every reachable state (Proofs/MemFsSimInv.v) *)
+Definition wf_op_sim (s : mst) (o : op) : bool :=
+  wf_op s o &&
+  match o with
+  | HRead i _ | HReadAt i _ _ | HWrite i _ | HWriteAt i _ _ | HWriteString i _ | HSeek i _ _ | HTruncate i _ => file_handle_ok s i
+  | HReaddir i _ | HReaddirnames i _ => dir_handle_ok s i
   | _ => true
   end.
 Fixpoint wf_seq_sim (s : mst) (ops : list op) : bool :=
